@@ -13,7 +13,7 @@ func init() {
 	register(&Property{
 		ID:          "C07",
 		Run:         runC07,
-		Explanation: "Termination safety of the priority disciplines: E1 every normal return of the scheduling loop is dominated by 'all inputs observed drained' (v1: together with the graceful signal, or it is a stop/cancel return); E2 an input is marked drained only on the closed-channel edge of a receive from the channel of the same key; E3 the two for-all helpers (all inputs drained, all in-flight counters zero) answer true only after a complete pass over the map; E4 a wait-until-nothing-is-in-flight loop is deferred unconditionally at the top of the scheduling loop function and leaves only when all counters are zero (v1: or on stop/cancel); E5 termination signals (close of channels, Complete of breakers) are raised only by unconditional defers of a goroutine entry; E6 the error channel is written only under err != nil with a value that originates in the divider check; E7 v1 Simple joins its handlers before signalling.",
+		Explanation: "Termination safety of the priority disciplines: E1 every normal return of the scheduling loop is dominated by 'all inputs observed drained' (v1: together with the graceful signal, or it is a stop/cancel return); E2 an input is marked drained only on the closed-channel edge of a receive from the channel of the same key; E3 the two for-all helpers (all inputs drained, all in-flight counters zero) answer true only after a complete pass over the map; E4 a wait-until-nothing-is-in-flight loop is deferred unconditionally at the top of the scheduling loop function and leaves only when all counters are zero (v1: or on stop/cancel); E5 termination signals (close of channels, Complete of breakers) are raised only by unconditional defers of a goroutine entry; E6 the error channel is written only under err != nil with a value that originates in the divider check; E7 v1 Simple joins its handlers before signalling; E11 (= X1) the table the all-drained test ranges over holds every configured input, registered unconditionally under its own key.",
 		NotDecided:  []string{"'promptly': no time bound is derived", "that termination eventually happens (liveness)"},
 	})
 }
@@ -164,6 +164,8 @@ func runC07(c *Ctx) {
 	r.Doc("E7", "v1 Simple: handlers joined (wg.Wait) after cancel and before any signal; wg.Add before go; wg.Done deferred first", 3)
 	r.Doc("E8", "(= B9, B11) actual changes only by +1 per send, -1 per received release, delete at zero", 8)
 	r.Doc("E10", "the scheduler's idle pause is a small constant (closed inputs are observed, and termination signalled, promptly)", 2)
+	r.Doc("E11", "(= X1) every configured / added input is registered in the table under its own key, unconditionally", 4)
+	r.Doc("E12", "(= X9) v1 Simple: the supervising goroutine waits only for stop, cancel, the graceful request and the inner discipline's end", 7)
 	r.Doc("E9", "the error channel never delays termination: made with capacity >= 1 and written at most once per goroutine (reading Err() is optional)", 3)
 	for _, p := range []*Prog{c.V1, c.V2} {
 		sr, err := resolveSchedRoles(p)
@@ -197,9 +199,19 @@ func runC07(c *Ctx) {
 			r.Fail("E8", p.Name+":priority", "-", err.Error())
 		}
 		errChannelNonBlocking(c, p, "E9")
+		// E11 (= X1): the table the all-drained test ranges over holds every configured input under
+		// its own key - an input that is not registered is never required to be closed and emptied
+		{
+			sub := &Ctx{V1: c.V1, V2: c.V2, Tier: c.Tier, R: NewReport("tmp", c.Tier)}
+			c02registration(sub, p)
+			for _, o := range sub.R.Obls {
+				c.R.Check(o.OK, "E11", o.Key, o.Site, o.Detail, o.Detail)
+			}
+		}
 	}
 	signalRules(c, c.V1, "E5")
 	signalRules(c, c.V2, "E5")
+	checkSupervisorWaits(c, c.V1, "E12")
 	// E7
 	if d := c.V1.Disc("priority.Simple"); d != nil {
 		for _, e := range d.Gos {
